@@ -1,3 +1,64 @@
+import PB.Model.Record
 import PB.Drv.Loop
-/- Driver stub for C08 (model not built yet): every op is rejected. -/
-def main : IO Unit := PB.Drv.lineLoop (fun _ => "bad-op")
+/- Driver for C08: stored-record marshal / parse. -/
+namespace PB.Drv.C08
+open PB PB.Record
+
+def bit (s : String) : Option Bool := if s = "1" then some true else if s = "0" then some false else none
+
+def parseMeta : List String → Option Meta
+  | [c, m, e, d, s, j] => do
+    let c ← c.toInt?; let m ← m.toInt?; let e ← e.toInt?; let d ← d.toInt?
+    let s ← bit s; let j ← bit j
+    pure ⟨c, m, e, d, s, j⟩
+  | _ => none
+
+def showMeta (m : Meta) : String :=
+  s!"{m.created} {m.modified} {m.expires} {m.deleted} {if m.secret then 1 else 0} {if m.crownjewel then 1 else 0}"
+
+def showErr : PErr → String
+  | .version e => s!"version {e}"
+  | .metaBlock e => s!"metablock {e}"
+  | .metaLoad e => s!"metaload {e}"
+  | .format e => s!"format {e}"
+
+def handle (line : String) : String :=
+  match PB.Drv.words line with
+  | ["mw", c, m, e, d, s, j, fmt, hex] =>
+    match parseMeta [c, m, e, d, s, j], fmt.toNat?, parseHex hex with
+    | some md, some f, some data => if f < 256 then toHex (marshalWrapper md (UInt8.ofNat f) data) else "bad-op"
+    | _, _, _ => "bad-op"
+  | ["mb", c, m, e, d, s, j, seedAtJson] =>
+    -- `<seed>@<hex of the JSON encoding>`: the JSON codec is a parameter of the model
+    match parseMeta [c, m, e, d, s, j], (seedAtJson.splitOn "@") with
+    | some md, [_, hex] => (match parseHex hex with
+      | some json => toHex (marshalBase md json)
+      | none => "bad-op")
+    | _, _ => "bad-op"
+  | ["gm", c, m, e, d, s, j] =>
+    match parseMeta [c, m, e, d, s, j] with
+    | some md => toHex (genCodeMarshal md)
+    | none => "bad-op"
+  | ["gu", hex] =>
+    match parseHex hex with
+    | some b => (match genCodeUnmarshal b with | some m => s!"ok {showMeta m}" | none => "err")
+    | none => "bad-op"
+  | ["parse", hex] =>
+    match parseHex hex with
+    | some b => (match newRawWrapper b with
+      | .ok w => s!"ok {showMeta w.md} {w.format} {toHex w.data}"
+      | .err e => s!"err {showErr e}"
+      | .delegated _ => "delegated")
+    | none => "bad-op"
+  | ["key", hex] =>
+    match parseHex hex with
+    | some b =>
+      let cs := b.map (fun x => Char.ofNat x.toNat)
+      let r := parseKey cs
+      s!"{toHex (r.1.map (fun c => UInt8.ofNat c.toNat))} {toHex (r.2.map (fun c => UInt8.ofNat c.toNat))}"
+    | none => "bad-op"
+  | _ => "bad-op"
+
+end PB.Drv.C08
+
+def main : IO Unit := PB.Drv.lineLoop PB.Drv.C08.handle
